@@ -24,6 +24,9 @@ type VerifSession struct {
 	Name   string
 	Params bgp.SessionParameters
 	Advs   []*bgp.Advertisement
+	// PreAdvs, when HasPre, is Set on the session before Advs (history: the final configuration must not depend on it).
+	PreAdvs []*bgp.Advertisement
+	HasPre  bool
 }
 
 // VerifAdvItem is one advertisement request of the catalogue.
@@ -123,6 +126,13 @@ func VerifRender(sessions []VerifSession, createOrder, setOrder []int) (string, 
 			return "", 0, fmt.Errorf("NewSession %s: %w", sessions[i].Name, err)
 		}
 		ss[i] = s
+	}
+	for _, i := range setOrder {
+		if sessions[i].HasPre {
+			if err := ss[i].Set(sessions[i].PreAdvs...); err != nil {
+				return "", 0, fmt.Errorf("Set(pre) %s: %w", sessions[i].Name, err)
+			}
+		}
 	}
 	for _, i := range setOrder {
 		if err := ss[i].Set(sessions[i].Advs...); err != nil {
